@@ -95,7 +95,7 @@ class SpreadsheetValidator:
             row_strings = []
             new_column_issues = []
             for column_number, cell in enumerate(text_file_row):
-                if not cell or cell == "n/a":
+                if not cell.strip(" ") or cell == "n/a":  # a cell that holds only blanks is an empty cell
                     continue
 
                 error_handler.push_error_context(ErrorContext.COLUMN, columns[column_number])
